@@ -35,19 +35,24 @@ Ops == [o1 |-> [name |-> "A", eqv |-> 1, k |-> 2, x0 |-> 10],
         o3 |-> [name |-> "B", eqv |-> 1, k |-> 5, x0 |-> 30],     \* other name, same structure as o1
         o4 |-> [name |-> "Y", eqv |-> 2, k |-> 4, x0 |-> 50]]     \* the operator of the circuit that lives in a YAML file
 Unset == -1                           \* 'no override'; 0 is a legal override value
-NtIds == {"t1", "t2", "t3", "t4", "t5"}
-NtOp  == [t1 |-> "o1", t2 |-> "o2", t3 |-> "o3", t4 |-> "o1", t5 |-> "o4"]
+NtIds == {"t1", "t2", "t3", "t4", "t5", "t6"}
+NtOp  == [t1 |-> "o1", t2 |-> "o2", t3 |-> "o3", t4 |-> "o1", t5 |-> "o4", t6 |-> "o2"]
 NtVar0 == [t1 |-> [k |-> Unset, x0 |-> Unset], t2 |-> [k |-> Unset, x0 |-> Unset],
-           t3 |-> [k |-> 7, x0 |-> Unset],     t4 |-> [k |-> Unset, x0 |-> 15], t5 |-> [k |-> Unset, x0 |-> Unset]]
+           t3 |-> [k |-> 7, x0 |-> Unset],     t4 |-> [k |-> Unset, x0 |-> 15], t5 |-> [k |-> Unset, x0 |-> Unset],
+           t6 |-> [k |-> 6, x0 |-> Unset]]
 CircIds == {"c1", "c2", "c3", "cy"}        \* cy: the template obtained from CircuitTemplate.from_yaml(path)
 (* c1: a and b share one NodeTemplate object, c shares only the operator; c2: an operator with the same *name* as
    c1's; c3: shares the template object t1 with c1 and has an operator of the same *structure* under another name *)
 CircNodes0 == [c1 |-> <<[n |-> "a", t |-> "t1"], [n |-> "b", t |-> "t1"], [n |-> "c", t |-> "t4"]>>,
-               c2 |-> <<[n |-> "a", t |-> "t2"]>>,
+               c2 |-> <<[n |-> "a", t |-> "t2"], [n |-> "b", t |-> "t6"]>>,      \* b overrides k of the operator that a uses as declared
                c3 |-> <<[n |-> "a", t |-> "t3"], [n |-> "b", t |-> "t1"]>>,
                cy |-> <<[n |-> "a", t |-> "t5"]>>]
 CircEdges0 == [c1 |-> <<[s |-> 1, t |-> 2, w |-> 4], [s |-> 3, t |-> 1, w |-> 6]>>, c2 |-> <<>>,
                c3 |-> <<[s |-> 1, t |-> 2, w |-> 8]>>, cy |-> <<>>]
+(* the edges of c1 and c3 use EdgeTemplates whose operators share the name "E" but multiply by different gains *)
+EdgeGain0 == [c1 |-> 3, c2 |-> 1, c3 |-> 6, cy |-> 1]
+(* an extrinsic input (constant array) on the first node when a compile is asked for one *)
+InpVal == [c1 |-> 7, c2 |-> 11, c3 |-> 13, cy |-> 17]
 VarNames == {"k", "x0"}
 NewVals == [k |-> 9, x0 |-> 40]          \* values written by overrides (distinct from every default)
 
@@ -76,7 +81,7 @@ NoObs == [kind |-> "none", c |-> "none", units |-> <<>>, expect |-> <<>>, exc |-
 NoStash == [sizes |-> <<>>, vals |-> <<>>]
 Hashes == {1, 2}
 EmptyNodeCache == [h \in Hashes |-> <<>>]
-EmptyOpCache == [nm \in {"A", "B", "Y"} |-> "none"]
+EmptyOpCache == [nm \in {"A", "B", "Y", "E"} |-> "none"]      \* "E": the circuit whose edge operator is cached
 
 Init == /\ tv = NtVar0
         /\ od = [o \in OpIds |-> [k |-> Ops[o].k, x0 |-> Ops[o].x0]]
@@ -92,14 +97,15 @@ Init == /\ tv = NtVar0
 VarOf(c, i) == IF cn[c][i].own THEN cn[c][i].pv ELSE tv[cn[c][i].t]
 OpOf(c, i) == NtOp[cn[c][i].t]
 Pick(v, d) == IF v = Unset THEN d ELSE v
-InW(c, i) == [q \in 1..Len(ce[c]) |-> IF ce[c][q].t = i THEN [s |-> ce[c][q].s, w |-> ce[c][q].w] ELSE [s |-> 0, w |-> 0]]
+InWG(c, i, g) == [q \in 1..Len(ce[c]) |-> IF ce[c][q].t = i THEN [s |-> ce[c][q].s, w |-> ce[c][q].w * g] ELSE [s |-> 0, w |-> 0]]
+InW(c, i) == InWG(c, i, EdgeGain0[c])
 (* unit = [n, x0, k, eqv, inw]; inw = incoming edges as (source node index, weight), 0-entries for "not mine" *)
 MeaningWith(c, tvv, odd, cnn, cee) ==
   [i \in 1..Len(cnn[c]) |->
      LET v == IF cnn[c][i].own THEN cnn[c][i].pv ELSE tvv[cnn[c][i].t]
          o == NtOp[cnn[c][i].t]
-     IN [n |-> cnn[c][i].n, x0 |-> Pick(v.x0, odd[o].x0), k |-> Pick(v.k, odd[o].k), eqv |-> Ops[o].eqv,
-         inw |-> [q \in 1..Len(cee[c]) |-> IF cee[c][q].t = i THEN [s |-> cee[c][q].s, w |-> cee[c][q].w]
+     IN [n |-> cnn[c][i].n, x0 |-> Pick(v.x0, odd[o].x0), k |-> Pick(v.k, odd[o].k), eqv |-> Ops[o].eqv, ext |-> 0,
+         inw |-> [q \in 1..Len(cee[c]) |-> IF cee[c][q].t = i THEN [s |-> cee[c][q].s, w |-> cee[c][q].w * EdgeGain0[c]]
                                                                  ELSE [s |-> 0, w |-> 0]]]]
 Meaning(c) == MeaningWith(c, tv, od, cn, ce)
 Meaning0(c) == MeaningWith(c, NtVar0, [o \in OpIds |-> [k |-> Ops[o].k, x0 |-> Ops[o].x0]],
@@ -110,6 +116,7 @@ Meaning0(c) == MeaningWith(c, NtVar0, [o \in OpIds |-> [k |-> Ops[o].k, x0 |-> O
 (* ------------------------------- layer P ---------------------------------- *)
 (* One node of a compile: operator-cache lookup (by name), default filling, node-cache lookup (by structure hash).
    acc = [oc, nc, units, stale, dv]; nv = values passed through node_values for this node (Unset when none). *)
+EdgeOpOwner(oc, c) == IF oc["E"] # "none" /\ "OpCacheKeyedByName" \in Dev THEN oc["E"] ELSE c
 ApplyNode(acc, c, i, vec, nv) ==
   LET o    == OpOf(c, i)
       nm   == Ops[o].name
@@ -118,7 +125,7 @@ ApplyNode(acc, c, i, vec, nv) ==
       v    == VarOf(c, i)
       unit == [n |-> cn[c][i].n,
                x0 |-> Pick(nv.x0, Pick(v.x0, od[src].x0)), k |-> Pick(nv.k, Pick(v.k, od[src].k)),
-               eqv |-> Ops[src].eqv, inw |-> InW(c, i)]
+               eqv |-> Ops[src].eqv, ext |-> 0, inw |-> InWG(c, i, EdgeGain0[EdgeOpOwner(acc.oc, c)])]
       h    == Ops[src].eqv
       old  == acc.nc[h]
       ext  == vec /\ old # <<>>
@@ -172,11 +179,17 @@ Impose(st, grp, units) ==
               p == CHOOSE p \in 1..Len(grp[q]) : grp[q][p] = j
           IN [units[j] EXCEPT !.x0 = st.vals[q][p]]]
 
-CompileWith(c, vec, clr, nvs, kind) ==
+CompileWith(c, vec, clr, nvs, kind, inp) ==
   LET nc0 == IF "NodeCacheSurvives" \in Dev THEN nodeCache ELSE EmptyNodeCache
-      res == FoldNodes([oc |-> opCache, nc |-> nc0, units |-> <<>>, stale |-> <<>>, dv |-> {}], c, 1, vec, nvs)
+      res0 == FoldNodes([oc |-> opCache, nc |-> nc0, units |-> <<>>, stale |-> <<>>, dv |-> {}], c, 1, vec, nvs)
+      owner == EdgeOpOwner(opCache, c)
+      \* edges are applied after the nodes: their operator "E" enters the name-keyed cache; the input is wired to node 1
+      res == [res0 EXCEPT !.oc = IF Len(ce[c]) > 0 /\ res0.oc["E"] = "none" THEN [res0.oc EXCEPT !["E"] = c] ELSE res0.oc,
+                          !.units = IF inp THEN [res0.units EXCEPT ![1].ext = InpVal[c]] ELSE res0.units,
+                          !.dv = res0.dv \cup (IF Len(ce[c]) > 0 /\ EdgeGain0[owner] # EdgeGain0[c] THEN {"OpCacheKeyedByName"} ELSE {})]
       stale == StaleUnits(nc0, res, vec)
-      exp == [i \in 1..Len(cn[c]) |-> [Meaning(c)[i] EXCEPT !.x0 = Pick(nvs[i].x0, @), !.k = Pick(nvs[i].k, @)]]
+      exp == [i \in 1..Len(cn[c]) |-> [Meaning(c)[i] EXCEPT !.x0 = Pick(nvs[i].x0, @), !.k = Pick(nvs[i].k, @),
+                                                              !.ext = IF inp /\ i = 1 THEN InpVal[c] ELSE 0]]
       grp == Groups(res.units, vec)
       st  == stash[c]
       useStash == "StateStash" \in Dev /\ st # NoStash
@@ -186,7 +199,8 @@ CompileWith(c, vec, clr, nvs, kind) ==
                    \cup (IF c = "cy" /\ yfresh /\ (Meaning(c) # Meaning0(c) \/ stash[c] # NoStash) THEN {"TemplateCacheByPath"} ELSE {})
                    \cup (IF useStash /\ (exc # "none" \/ out # res.units) THEN {"StateStash"} ELSE {})
   IN /\ last' = [kind |-> IF kind = "compile_dec" THEN "compile" ELSE kind, c |-> c, units |-> IF exc = "none" THEN out \o stale ELSE <<>>,
-                 expect |-> IF c = "cy" /\ yfresh THEN [i \in 1..Len(cn[c]) |-> [Meaning0(c)[i] EXCEPT !.x0 = Pick(nvs[i].x0, @), !.k = Pick(nvs[i].k, @)]] ELSE exp,
+                 expect |-> IF c = "cy" /\ yfresh THEN [i \in 1..Len(cn[c]) |-> [Meaning0(c)[i] EXCEPT !.x0 = Pick(nvs[i].x0, @), !.k = Pick(nvs[i].k, @),
+                                                                                             !.ext = IF inp /\ i = 1 THEN InpVal[c] ELSE 0]] ELSE exp,
                  exc |-> exc, dec |-> kind = "compile_dec"]
      /\ fired' = fired \cup dvs
      /\ stash' = IF "StateStash" \in Dev /\ st = NoStash /\ exc = "none"
@@ -211,10 +225,10 @@ CompileWith(c, vec, clr, nvs, kind) ==
      /\ UNCHANGED <<od, ce, yhot, yhas, yfresh>>
 
 Usable(c) == c = "cy" => yhas
-Compile(c, vec, clr, dec) ==
-  /\ "compile" \in Calls /\ Usable(c) /\ (dec => "decorator" \in Calls)
-  /\ CompileWith(c, vec, clr, NoNv(c), IF dec THEN "compile_dec" ELSE "compile")
-  /\ tr' = Append(tr, [a |-> "compile", c |-> c, vec |-> vec, clr |-> clr, node |-> 0, var |-> "", val |-> 0, dec |-> dec])
+Compile(c, vec, clr, dec, inp) ==
+  /\ "compile" \in Calls /\ Usable(c) /\ (dec => "decorator" \in Calls) /\ (inp => "input" \in Calls)
+  /\ CompileWith(c, vec, clr, NoNv(c), IF dec THEN "compile_dec" ELSE "compile", inp)
+  /\ tr' = Append(tr, [a |-> "compile", c |-> c, vec |-> vec, clr |-> clr, node |-> 0, var |-> "", val |-> 0, dec |-> dec, inp |-> inp])
 
 (* get_run_func(..., node_values={'<node>/<op>/<var>': val}): the value reaches the compiled model, not the template *)
 Targets(c, sel) == IF sel = 0 THEN 1..Len(cn[c]) ELSE {sel}
@@ -226,7 +240,7 @@ CompileNV(c, sel, var, arr, zero, vec) ==
   /\ "compile_nv" \in Calls /\ Usable(c) /\ (sel = 0 => UniformOp(c))
   /\ LET ts == Targets(c, sel) IN
      CompileWith(c, vec, TRUE, [i \in 1..Len(cn[c]) |-> IF i \in ts THEN [NoNv(c)[i] EXCEPT ![var] = OverrideVal(NewVals[var] + 1, ts, i, arr, zero)]
-                                                         ELSE NoNv(c)[i]], "compile")
+                                                         ELSE NoNv(c)[i]], "compile", FALSE)
   /\ tr' = Append(tr, [a |-> "compile_nv", c |-> c, vec |-> vec, clr |-> TRUE, node |-> sel, var |-> var, val |-> NewVals[var] + 1, dec |-> FALSE,
                         arr |-> arr, zero |-> zero])
 
@@ -314,7 +328,7 @@ CallEarlier(hd) ==     \* evaluate a function returned by an earlier compile: it
   /\ UNCHANGED <<tv, od, cn, ce, opCache, nodeCache, stash, yhot, yhas, yfresh, hasIr, handles, fired>>
 
 Next ==
-  \/ \E c \in CircIds, vec \in BOOLEAN, clr \in BOOLEAN, dec \in BOOLEAN : Compile(c, vec, clr, dec)
+  \/ \E c \in CircIds, vec \in BOOLEAN, clr \in BOOLEAN, dec \in BOOLEAN, inp \in BOOLEAN : Compile(c, vec, clr, dec, inp)
   \/ LoadYaml
   \/ \E c \in CircIds : ClearModel(c)
   \/ \E c \in CircIds, vec \in BOOLEAN : \E sel \in 0..Len(cn[c]) : \E var \in VarNames, arr \in BOOLEAN, zero \in BOOLEAN :
@@ -346,10 +360,14 @@ ClearModelClears ==
 Sig == [i \in 1..Len(tr) |-> <<tr[i].a, tr[i].c, tr[i].clr>>]
 ViewSig == <<View, Sig>>
 PlainCalls == \A i \in 1..Len(tr) : /\ (tr[i].a \in {"compile", "compile_nv"} => ~tr[i].vec /\ ~tr[i].dec)
+                                     /\ (tr[i].a = "compile" => ~tr[i].inp)
                                      /\ (tr[i].a = "update_var" => tr[i].node # 0)
 (* C07 quick tier: compiles clear their caches (the clear flag is C13's subject) *)
 ClearingCompiles == /\ \A i \in 1..Len(tr) : tr[i].a = "compile" => tr[i].clr
                     /\ Cardinality({i \in 1..Len(tr) : tr[i].a = "compile_nv"}) <= 1
+(* quick tiers: the decorator and the input are exercised on plain (non-vectorised) compiles, one at a time *)
+FewFlags == \A i \in 1..Len(tr) : /\ (tr[i].a = "compile" => (~(tr[i].dec /\ tr[i].inp) /\ ((tr[i].dec \/ tr[i].inp) => ~tr[i].vec)))
+                                   /\ (tr[i].a = "compile_nv" => tr[i].node # 0)          \* all/ node_values: C07
 OnlyCy == \A i \in 1..Len(tr) : tr[i].c \in {"cy", "none"}
 ReadOnlyKinds == {"compile", "compile_nv", "get_nodes", "collect_edges", "to_yaml", "deepcopy", "update_template_copy",
                   "getitem", "clear_frontend_caches", "call_earlier", "clear_model"}
